@@ -56,6 +56,7 @@ def runNodeStop (m scenario : String) (param : Nat) : String :=
     else if scenario = "replay" ∧ inCallback s.pcN ∧ countNet s = 2 then some (.stopIn .net)
     else if (scenario = "insig") ∧ inCallback s.pcS ∧ countSig s = param + 1 then some (.stopIn .sig)
     else if scenario = "contended" ∧ inCallback s.pcS ∧ countSig s = 1 then some (.stopIn .sig)
+    else if scenario = "contnet" ∧ inCallback s.pcN ∧ countNet s = 1 then some (.stopIn .net)
     else if scenario = "external" ∧ s.log.length ≥ param + 1 then some .stopExt
     -- storm: timer commands only (no signal is ever delivered); stop() from outside at once
     else if scenario = "storm" then some .stopExt
@@ -89,6 +90,7 @@ def runNode (ws : List String) : String :=
     | some l => runNodeTcp m l
     | none => "bad-case"
   | ["serial", m, _] => runNodeSerial m
+  | ["serialc", m] => runNodeSerial m   -- the same, with events cached before the listener call
   | ["stop", m, sc, p] => match p.toNat? with
     | some p => runNodeStop m sc p
     | none => "bad-case"
